@@ -24,6 +24,28 @@ def check_instance(inst, F, ctx, extra):
     modes = tuple(sorted((f, p.get('mode')) for f, p in inst.feats.items() if 'mode' in p))
     ctx.nontrivial.add((fs, modes, inst.gapless))
     ctx.ok('accept-witness', inst)
+    # every requested feature must have produced its item (a feature that is silently dropped also "compiles")
+    TR = {'Debug': ('core::fmt::Debug', 'E'), 'Display': ('core::fmt::Display', 'E'), 'FromStr': ('core::str::traits::FromStr', 'E'), 'TryFrom': ('core::convert::TryFrom', 'E'),
+          'Into': ('core::convert::From', 'int'), 'IntoStr': ('core::convert::From', 'ref')}
+    for f, p in inst.feats.items():
+        if f == 'sorted':
+            continue
+        if f in TR:
+            tr, who = TR[f]
+            ok = False
+            for im in inst.impls:
+                if im.get('trait') == tr and im['from_expansion']:
+                    st = inst.crate.T(im['self_ty'])
+                    if (who == 'E' and st.get('path') == inst.enum_path) or (who != 'E' and st['k'] == who):
+                        ok = True
+            if not ok:
+                ctx.violation('requested-item-missing', inst, f, 'feature `%s` is requested but the derive produced no impl of %s' % (f, tr), key='C10/requested-item-missing/%s' % f, construct='src/parser/attr.rs::parse_attrs / src/parser/feature.rs (the feature list)')
+        else:
+            nm = p.get('name', f)
+            if inst.assoc.get(nm) is None:
+                ctx.violation('requested-item-missing', inst, f, 'feature `%s` is requested but the derive produced no item named `%s` (items: %s)' % (f, nm, sorted(inst.assoc)[:12]), key='C10/requested-item-missing/%s' % f, construct='src/parser/attr.rs::parse_attrs / src/parser/feature.rs (the feature list)')
+            else:
+                ctx.ok('requested-item-present', inst)
     cov = extra.setdefault('cov', set()) if extra is not None else set()
     for f, p in inst.feats.items():
         ctx.by_rule['covers:%s/%s/%s' % (f, p.get('mode', '-'), 'gapless' if inst.gapless else 'holes')] = 1
